@@ -41,7 +41,9 @@ func c19Scenario(nUpdates int) func() schedScenario {
 					sc.Free()
 					var rs []c19Res
 					last := int32(0)
+					var usedSum int64
 					do := func(req int32, seq int32) c19Res {
+						usedSum += int64(last)
 						op := Op{K: "update", S: 0, MUs: []MU{{RG: 1, Req: req, Conts: []Cont{{Vol: last, Seq: seq}}}}, Seq: seq}
 						t0 := time.Now()
 						r := w.Do("POST", ccBase+"/chargingdata/"+ref+"/update", op.Request(supiA), nil)
@@ -70,6 +72,12 @@ func c19Scenario(nUpdates int) func() schedScenario {
 					vs.Quiesce()
 					sc.Stop()
 					sc.Results["probe"] = do(probeReq, 99)
+					// money: what the CHF holds as reservation plus the price of the usage reported so far can never exceed
+					// what has left the account (an answer that was lost may leave money debited but unrecorded, never the reverse)
+					fin := w.Snapshot(false)
+					var bal int64
+					fmt.Sscan(fin.Bal[balKey(supiA, 1)], &bal)
+					sc.Results["money"] = [3]int64{fin.UEs[supiA].Reserved[1], usedSum, 100000 - bal}
 				})
 			},
 			Observe: func(w *World, sc *schedCtx) (string, []Finding) {
@@ -92,6 +100,9 @@ func c19Scenario(nUpdates int) func() schedScenario {
 					if p.Code != 200 || p.Granted != p.Req || p.VT > 2000 {
 						fs = append(fs, Finding{"probe-after-faults-fails", fmt.Sprintf("after the delayed answers, with prompt peers again, a fresh update requesting %d units answered %d granted %d after %d ms (updates before: %v)", p.Req, p.Code, p.Granted, p.VT, rs)})
 					}
+				}
+				if m, ok := sc.Results["money"].([3]int64); ok && m[0]+m[1] > m[2] {
+					fs = append(fs, Finding{"reservation-without-debit", fmt.Sprintf("at the end the CHF holds a reservation of %d and usage worth %d was reported, but only %d ever left the account (updates: %v)", m[0], m[1], m[2], rs)})
 				}
 				// no exchange may be given up before its 5 s are over (a lost answer must not eat into the time of later exchanges)
 				for _, ab := range diam.MemAbandoned(4900 * time.Millisecond) {
